@@ -265,6 +265,9 @@ ApplyD(st, a, devs) ==
       [] a.name = "MinterMint"                   -> MinterMint(st, a)
       [] a.name = "ExampleSend"                  -> ExampleSend(st, a)
       [] a.name = "SetFakeMeta"                  -> SetFakeMeta(st, a)
+      \* verification hook (harness only): the Upgradable interface's migration window is opened without swapping
+      \* code; nothing else in this module may depend on it
+      [] a.name = "HookOpenWindow"               -> Acc(st, "unit", <<>>)
 
 Apply(st, a) == ApplyD(st, a, Deviations)        \* what the code does (with the recorded deviations)
 ApplyIntended(st, a) == ApplyD(st, a, {})        \* the design
